@@ -49,7 +49,7 @@ def dir_grid(rng, nd=None, full=None, exact=False):
     full=False: partial sector with spacing s (nd*s < 360).
     exact=True: spacing and offset exactly representable (whole/dyadic degrees)."""
     if nd is None:
-        nd = int(rng.choice([1, 2, 3, 4, 5, 8, 9, 12, 16, 24, 36, 72]))
+        nd = int(rng.choice([1, 2, 3, 4, 5, 7, 8, 9, 12, 13, 16, 21, 24, 28, 36, 64, 72]))
     if full is None:
         full = bool(rng.random() < 0.8) or nd == 1
     if nd == 1:
